@@ -223,4 +223,18 @@ def analyse(facts, tier):
                                         '%s rebuilds the chip-channel table while notes may be sounding: active notes keep references to chip channels whose user lists were just cleared' % short(fn.name)))
     if n6 < 2:
         raise build.AnalysisBroken('C04.R6: m_chipChannels.clear() sites not found')
+    # the discharge above relies on realTime_panic() leaving no active note: panic() must key off immediately (a deferred
+    # key-off of a short drum note keeps the note, and its chip-channel references, alive across the rebuild)
+    pn = facts.fn('OPNMIDIplay::panic')
+    forced = []
+    for b, j, st in pn.cfg.stmts():
+        for x in calls_in(st['s']):
+            if short(callee_name(x)) == 'noteOff' and len(x.get('a', [])) >= 3:
+                forced.append(const_of(x['a'][2]))
+            elif short(callee_name(x)) in ('noteOff', 'realTime_NoteOff'):
+                forced.append(0)
+    okf = bool(forced) and all(v == 1 for v in forced)
+    obls.append(Obl('C04.R6', pn.name, 'panic drops every active note at once', pn.loc, 'discharged' if okf else 'finding',
+                    why='noteOff(channel, key, forceNow = true) for every channel and key' if okf else
+                    'panic() defers the key-off of drum notes younger than the minimal drum time: such a note survives realTime_panic() and keeps references into the chip-channel table that is rebuilt next (use-after-free in find_user when its time runs out)'))
     return obls
